@@ -561,7 +561,7 @@ func hsRandom(prop string, seed uint64, n int, launches []string) []*k.Spec {
 		if u("listenon", 5) == 0 {
 			pp["listen"] = []string{"", "tcp"}[u("listen", 2)]
 		}
-		s := &k.Spec{Params: pp}
+		s := &k.Spec{Seed: sd, Params: pp}
 		if u("noise", 2) == 0 {
 			swarm(s, "client.go:Client.Start")
 			if s.DelayClass == "big" {
